@@ -2,15 +2,21 @@
 
 package rules
 
-// C08 driver.  Rule sets (literal / wildcard / catch-all expressions for the same
-// paths, all three allow_encoded_slashes settings, path_params, default rule,
-// forward_to with and without rewrite) are created by the real rule factory and
-// loaded into the real repository; pairs (raw path, equivalent re-encoding) are
-// sent as raw bytes over TCP to a real net/http server whose handler builds the
-// real requestcontext and runs the real rule executor (FindRule + Execute).  A
-// stub authenticator records the captures the pipeline sees.
+// C08 driver.  Rule sets (literal / wildcard / free-wildcard expressions for the same
+// paths, allow_encoded_slashes off / on / no_decode / unset, path_params exact, glob or
+// regex, default rule, forward_to with and without rewrite, swallowing error handler) are
+// created by the real rule factory and loaded into the real repository.  Pairs (raw path,
+// equivalent re-encoding) reach the real rule executor (FindRule + Execute) in three ways:
+//   requests  raw bytes over TCP to a real net/http server + real requestcontext (TestVerifC08)
+//   envoy     grpcv3.NewRequestContext (TestVerifC08Envoy)
+//   xfu       the same server, target in X-Forwarded-Uri (TestVerifC08Xfu)
+// Every case runs on a fresh repository (the observation) and again on a second repository
+// after a history of non-equivalent twins (Stable).  A stub authenticator records the
+// captures the pipeline sees; for glob / regex path_params the answers of the real typed
+// matchers on every piece of the path are rendered as the model's oracle table.
 //
-// A second stream ("units") calls rule_impl.go's unescape directly.
+// A fourth stream ("units", TestVerifC08Units) calls rule_impl.go's unescape directly; it is
+// supplementary to "requests".
 
 import (
 	"bufio"
@@ -1079,6 +1085,48 @@ func c08HasEncSlash(s string) bool {
 	return strings.Contains(s, "%2F") || strings.Contains(s, "%2f")
 }
 
+// c08Rmatch mirrors Spec.v's rmatch: the path expression matches the segments as they are spelled.
+func c08Rmatch(pat []c08Seg, segs []string) bool {
+	for i, sg := range pat {
+		switch sg.K {
+		case "all":
+			return i == len(pat)-1 && i < len(segs) && strings.Join(segs[i:], "/") != ""
+		case "wild":
+			if i >= len(segs) || segs[i] == "" {
+				return false
+			}
+		default:
+			if i >= len(segs) || segs[i] != sg.V {
+				return false
+			}
+		}
+	}
+
+	return len(pat) == len(segs)
+}
+
+// c08GuardF1 mirrors Spec.v's guard_F1 (counted in the input histogram only).
+func c08GuardF1(c c08Case) bool {
+	segs := func(p string) []string {
+		if !strings.HasPrefix(p, "/") {
+			return nil
+		}
+
+		return strings.Split(p[1:], "/")
+	}
+	a, b := segs(c.Raw), segs(c.Raw2)
+
+	for _, r := range c.Rules {
+		for _, rt := range r.Routes {
+			if c08Rmatch(rt.Pat, a) != c08Rmatch(rt.Pat, b) {
+				return true
+			}
+		}
+	}
+
+	return false
+}
+
 func c08Tags(c c08Case, o c08Obs) []string {
 	tags := []string{"c08:a:" + o.A.Kind}
 	if o.A.Kind == "accepted" && o.A.Rule == "default" {
@@ -1135,6 +1183,10 @@ func c08Tags(c c08Case, o c08Obs) []string {
 
 	if c08Risky(c) {
 		tags = append(tags, "c08:c03-f5-domain")
+	}
+
+	if c.Raw != c.Raw2 && c08GuardF1(c) {
+		tags = append(tags, "c08:guard-F1")
 	}
 
 	for _, r := range c.Rules {
